@@ -280,6 +280,12 @@ func (z *Zipper) matchUsers(usersOld, usersNew []ssa.Instruction) {
 
 func (z *Zipper) areEquivalent(a, b ssa.Instruction) bool {
 	verifCountEquivalence()
+	eq := z.instrsEquivalent(a, b)
+	verifTraceEquivalence(z, a, b, eq)
+	return eq
+}
+
+func (z *Zipper) instrsEquivalent(a, b ssa.Instruction) bool {
 	if reflect.TypeOf(a) != reflect.TypeOf(b) {
 		return false
 	}
